@@ -326,6 +326,7 @@ def cases(rng, quick):
 
 def run(ctx):
     quick = ctx.tier == "quick"
+    _t0 = time.time()
     cs = cases(ctx.rng, quick)
     ctx.rule = ("one real keyed session per case: honest matrix (3 encodings x pid 4/8 x key 16/32 x ticket version 0/1), honest requests with the connection check at the boundaries of its 32 bits, ticket age "
                 "{-5,0,60,119,120,121,3600,86400} s x TZ {UTC, +9, -5}, wrong ticket/server/session keys, mismatched user id, "
@@ -341,6 +342,14 @@ def run(ctx):
                 "offsets 0, x:30, x:45, +12/+13), virtual clock at {-2d-300 .. 2d+300} around the end (repeated hour) and the start (skipped hour) of DST of a drawn year and in the middle of each season, "
                 "tickets issued {0,60,119 | 121,125, 10 min .. 2 h, d-125 .. d+600, 2d-1 .. 2d+121} s of REAL time before + random instants/ages; oracle = real age > 120 s is never admitted, "
                 "a fresh ticket whose stamp is unambiguous is admitted and observed as its user; "
+                "the hand-over of an endpoint's table entry (c05_handoff.py, real code only): the previous connection ended {peer disconnect, timeout, close(), client vanished}, its handler returns / raises "
+                "at {-0.5 .. +0.025 s around the next handshake, 0..8 loop turns after the server read the CONNECT, 0 / 1 ms / 20 ms after the CONNECT acknowledgement's send() began, 0 .. 0.2 s after it completed, never} "
+                "while the server's socket spends {0..12 loop turns, 30 ms .. 3 s} inside that send(); the next user's ticket fresh / stale, client transport reused (same local port) or new; "
+                "oracle = whatever handler runs observes exactly the presented ticket's user and key, the previous handler keeps its own, stale creates nothing, a third user is admitted afterwards; "
+                "steps of the system clock while the server runs (c05_clockstep.py): time.time stepped by +-{60,119,121,300,600,1800,3600,7200,86400,30 d} s and random amounts, one or several steps, monotonic clock untouched; "
+                "tickets aged {0..118 | 122..600, |step|-125 .. |step|+600} s by the clock as it is, shown before, at once after and 0.5 .. 700 s after each step, tickets carried over a step; "
+                "oracle = older than 120 s by the system clock as it is creates nothing, fresh is admitted and observed as its user (carried tickets whose real and clock age disagree: not judged); "
+                "each CONNECT that reached a datagram server is also decided by a fresh L1 model server reading the same clock; "
                 "distinct non-trivial = distinct cases" % len([z for z in __import__("c05_dst").ZONES if __import__("c05_dst").zone_usable(z)]))
     jobs = [(i, c, ctx.rng.getrandbits(32)) for i, c in enumerate(cs)]
     drv = ctx.driver("C02")
@@ -383,6 +392,7 @@ def run(ctx):
     # the life of an endpoint's entry at one server (c05_lifecycle.py): the byte-identical CONNECT datagram again after the connection
     # it established has ended (4 ways to end) at ticket ages on both sides of 120 s, the same while the previous handler is still
     # busy / on an established connection, and a real client with a new (fresh / stale) ticket while the previous handler is busy
+    _t = {"sessions": time.time() - _t0}; _t0 = time.time()
     import c05_lifecycle as lc
     specs = lc.cases(ctx.rng, quick)
     nlc = {"created": 0, "not-created": 0}
@@ -399,8 +409,71 @@ def run(ctx):
                 ctx.violation("c05:lifecycle:%s:%s:%s" % (spec["name"], spec["enc"], spec["end"]), what,
                               {"spec": spec, "facts": facts, "how": "PYTHONPATH=<repo>:harness /venv/bin/python -c 'import c05_lifecycle as lc; print(lc.run_case(spec))'"})
     ctx.extra["lifecycle_second_request_created_a_connection"] = nlc
+    # the hand-over of an endpoint's entry from one user to the next (c05_handoff.py): the previous connection has ended, its handler has
+    # not returned, another user's valid CONNECT arrives from the same endpoint (client transport reused: same local port), and the old
+    # handler returns / raises at every moment relative to process_connect - in particular while the CONNECT acknowledgement is being
+    # sent (the server's socket spends 0..12 event-loop turns / a controllable time inside send())
+    _t["lifecycle"] = time.time() - _t0; _t0 = time.time()
+    import c05_handoff as ho
+    hspecs = ho.cases(ctx.rng, quick)
+    nho = {"entry-vanished-during-send": 0, "handler-returned-during-send-entry-still-there": 0, "entry-there-throughout": 0, "entry-gone-before": 0, "nothing-sent": 0,
+           "second-created": 0, "second-not-created": 0}
+    with multiprocessing.Pool(min(16, os.cpu_count() or 4)) as pool:
+        for spec, bad, facts, err in pool.imap_unordered(ho.work, hspecs, chunksize=8):
+            if err:
+                ctx.corr_break("c05-session-harness", "session crashed in the harness", {"traceback": err, "spec": spec}); continue
+            a, b, r = facts.get("table_at_send_start"), facts.get("table_at_send_end"), facts.get("old_returned_during_send")
+            moment = ("nothing-sent" if a is None else "entry-gone-before" if a == 0 else "entry-vanished-during-send" if b == 0 else
+                      "handler-returned-during-send-entry-still-there" if r else "entry-there-throughout")
+            nho[moment] += 1
+            made = bool((facts.get("second") or {}).get("created"))
+            nho["second-created" if made else "second-not-created"] += 1
+            ctx.case(key=("handoff", spec["seed"], spec["name"]), nontrivial=True,
+                     tag="%s:%s:%s:%s" % (spec["name"], spec["enc"], moment, "connection-created" if made else "no-connection"),
+                     sample={"spec": spec, "facts": facts} if spec["seed"] % 37 == 0 else None)
+            for what in bad[:4]:
+                ctx.violation("c05:%s:%s:%s" % (spec["name"], spec["enc"], spec["end"]), what,
+                              {"spec": spec, "facts": facts, "how": "PYTHONPATH=<repo>:harness /venv/bin/python -c 'import c05_handoff as h; print(h.run_case(spec))'"})
+    ctx.extra["handoff_moments"] = nho
+    # discontinuities of the system clock while the server runs (c05_clockstep.py): time.time stepped by a minute .. a month in both
+    # directions, the monotonic clock untouched; tickets shown before, at once after and some time after every step; every CONNECT
+    # that reached a datagram server is also judged by a fresh compiled L1 model server whose clock reads what the real one read
+    _t["handoff"] = time.time() - _t0; _t0 = time.time()
+    import c05_clockstep as ck
+    cspecs = ck.cases(ctx.rng, quick)
+    ctot = {}
+    mlines, mwant = [], []
+    with multiprocessing.Pool(min(16, os.cpu_count() or 4)) as pool:
+        for n, (spec, bad, facts, err) in enumerate(pool.imap_unordered(ck.work, cspecs, chunksize=2)):
+            if err:
+                ctx.corr_break("c05-session-harness", "session crashed in the harness", {"traceback": err, "spec": spec}); continue
+            for k, v in facts.items():
+                if isinstance(v, int) and not isinstance(v, bool) and k not in ("last_step", "table_end"): ctot[k] = ctot.get(k, 0) + v
+            ctx.case(key=("clockstep", spec["seed"], spec["name"]), nontrivial=True,
+                     tag="%s:%s:%s" % (spec["name"], spec["enc"], ",".join("%+d" % v for op, v in spec["plan"] if op == "step")[:40] or "none"),
+                     sample={"spec": spec, "facts": {k: v for k, v in facts.items() if k != "shows"}} if spec["seed"] % 17 == 0 else None)
+            for what in bad[:4]:
+                ctx.violation("c05:%s:%s" % (spec["name"], spec["enc"]), what,
+                              {"spec": spec, "facts": {k: v for k, v in facts.items() if k != "shows"},
+                               "how": "PYTHONPATH=<repo>:harness /venv/bin/python -c 'import c05_clockstep as c; print(c.run_case(spec)[0])'"})
+            for lines, at, sh in ck.model_lines(spec, facts, "k%d" % n):
+                mwant.append((len(mlines) + at, sh, spec))
+                mlines += lines
+    mdiff = None
+    if mlines:
+        mout = drv.batch(mlines)
+        for at, sh, spec in mwant:
+            model_created = " started " in (" " + mout[at] + " ")
+            ctx.traces_validated += 1
+            if model_created != sh["created"] and mdiff is None:
+                mdiff = {"spec": spec, "show": sh, "model": mout[at][:200], "real_created": sh["created"]}
+    ctx.extra["clockstep"] = dict(ctot, connects_judged_by_the_model=len(mwant))
+    if mdiff and not ctx.violations:
+        ctx.corr_break("c05-clockstep-admission-correspondence", "the real server and the L1 model decide differently about a CONNECT after a step of the system clock",
+                       dict(mdiff, theorems_no_longer_tied=["Nx.C05.admit_iff", "Nx.C05.admission_ignores_history", "Nx.C05.accepted_request_is_valid"]))
     # the server's time zone as an axis, daylight-saving transitions included (c05_dst.py): the ticket's stamp is a local wall-clock
     # DateTime, the lifetime is 120 s of REAL time - on both sides of / inside the repeated hour and the skipped hour, and in both seasons
+    _t["clockstep"] = time.time() - _t0; _t0 = time.time()
     import c05_dst as dst
     dspecs = dst.cases(ctx.rng, quick)
     dtot = {}
@@ -456,6 +529,7 @@ def run(ctx):
                                                                              "admitted": dtot.get("fresh_in_fold_admitted", 0), "refused": dtot.get("fresh_in_fold_refused", 0), "examples": dfold}
     os.environ["TZ"] = "UTC0"; time.tzset()
     # the interpreter's flags are part of the environment: the same verdicts with assertions compiled away (python -O)
+    _t["dst"] = time.time() - _t0; _t0 = time.time()
     import json, subprocess, sys
     sub = [(i, c, sd) for (i, c, sd) in jobs if c.get("expect") is not None and not c.get("history")]
     refusals = [j for j in sub if not j[1]["expect"]["server"]]
@@ -482,6 +556,8 @@ def run(ctx):
             for what in bad:
                 ctx.violation("c05:python-O:%s" % c["name"], "with assertions compiled away (python -O / PYTHONOPTIMIZE): " + what,
                               {"case": enc(c), "seed": sd, "how": "echo '[[0, case, seed]]' | /venv/bin/python -O harness/corr_C05.py   (PYTHONPATH=harness:lib)"})
+    _t["python-O"] = time.time() - _t0
+    ctx.extra["section_wall_seconds"] = {k: round(v, 1) for k, v in _t.items()}
     ctx.extra["l1_session_diffs"] = ndiff
     if ndiff and not ctx.violations:
         ctx.corr_break("l1-endpoint-correspondence", "real endpoints and the Lean L1 model disagree in %d sessions" % ndiff,
